@@ -339,6 +339,14 @@ def run_case(case):
     dmo = bo + bo.T
     cmp(call(electrostatic_potential, B(sh2), dmo, pts2 + R @ np.array([0.05, 0.02, 0.01]), nuc2, Z, transform=Tm @ Dinv),
         call(electrostatic_potential, B(shells), dmo, pts + np.array([0.05, 0.02, 0.01]), nuc, Z, transform=Tm), "electrostatic_potential(transform=T) of fixed orbitals", "esp_transform")
+    if nfn <= 20 and int(rngT.integers(0, 4)) == 0:
+        # the same law on a large grid (more than 500 points in one call), square transformation
+        Tq = rngT.normal(size=(nfn, nfn))
+        bq = rngT.normal(size=(nfn, nfn))
+        big = nuc[0] + rngT.normal(size=(530, 3)) * 2.0 + 0.05
+        big2 = np.array([R @ p_ + d for p_ in big])
+        cmp(call(electrostatic_potential, B(sh2), bq + bq.T, big2, nuc2, Z, transform=Tq @ Dinv),
+            call(electrostatic_potential, B(shells), bq + bq.T, big, nuc, Z, transform=Tq), "electrostatic_potential(transform=T) of fixed orbitals, 530 points", "esp_transform_large_grid")
     if case["eri"]:
         E1 = call(electron_repulsion_integral, B(shells), notation="chemist")
         if not isinstance(E1, cm.Raised):
